@@ -213,6 +213,11 @@ func c15(args []string) int {
 		strings.Fields("W1 SW SNAP W1 SW CMP:1 W1 SW CMP:1 CMP:2 W1 SW SNAP"),
 	}
 	layers := []Layer{
+		// files whose content is fixed later than they were requested: a snapshot requested while a sync is in
+		// flight (QSNAP = one fixed interleaving of DB.Sync and DB.Snapshot, see scn/ops.go) must not be stamped
+		// earlier than the level-0 file it ends up covering
+		{Name: "seeded/keep-l0/queued-snapshot", Cfg: keep, Alphabet: strings.Fields("W1 SW QSNAP CMP:1 RETL0:2"), Depth: d(3, 4),
+			Seeds: [][]string{strings.Fields("W1 SW W1"), strings.Fields("W1 SW W1 SW CMP:1 W1")}},
 		{Name: "exact/keep-l0", Cfg: keep, Alphabet: a, Depth: d(4, 6)},
 		{Name: "seeded/keep-l0", Cfg: keep, Alphabet: a, Depth: d(2, 4), Seeds: seeds},
 		{Name: "seeded/l0-pruned-by-compaction", Cfg: prune, Alphabet: a, Depth: d(2, 4), Seeds: seeds},
